@@ -130,7 +130,13 @@ def run(R, env):
                             okc = r_[0] == "bin" and r_[1] == "Add" and ((r_[2] == ("c",) and const_int(r_[3]) == 1) or (r_[3] == ("c",) and const_int(r_[2]) == 1))
                     if not okc:
                         good = False
+            via_ref = any(x_[0] == "mut" and x_[2] in ("std::option::Option::get_or_insert", "std::option::Option::get_or_insert_with", "std::option::Option::insert", "std::option::Option::as_mut") for base_, d_ in ds for x_ in d_.values())
+            if via_ref and not good:
+                # `*count.get_or_insert(0) += 1`: the field is updated through a reference handed back by a call; writes
+                # through returned references are not modelled, so what is stored in that field is not decided
+                R.set_undecided(["C05.R2"], "a field of the pending batch is updated through a reference returned by Option::get_or_insert & co.; writes through returned references are not modelled")
             R.ob("C05.R2", "LiquidUnstake:request=%s:batch-delta" % name, good, "in this world the pending batch is not updated by exactly {batch_total_liquid_stake += paid%s}" % ("" if want else ", unstake_requests_count += 1"), loc=op["loc"], fn=hk)
+    R.clear_undecided(["C05.R2"])
     # ---------------- R3: key == record for every write in the crate; index closure
     n = 0
     for site, c in sites.items():
